@@ -6,6 +6,12 @@
 (*  composition and the limit, C09 trusted helpers vs validated conditions. *)
 EXTENDS Generator, TraceUtil
 
+\* trees are logged in flat list form
+NormRun(r) == IF "res" \in DOMAIN r THEN [r EXCEPT !.res = FromJ(@)] ELSE r
+NormE(e) == LET e1 == IF "prog" \in DOMAIN e THEN [e EXCEPT !.prog = FromJ(@)] ELSE e
+                e2 == IF "genrun" \in DOMAIN e1 THEN [e1 EXCEPT !.genrun = NormRun(@)] ELSE e1
+            IN IF "runs" \in DOMAIN e2 THEN [e2 EXCEPT !.runs = [i \in DOMAIN @ |-> NormRun(@[i])]] ELSE e2
+
 Judged(e) == ~e.opaque /\ "prog" \in DOMAIN e
 
 \* the legacy path has no interned-size cost mode, so the two are compared under byte cost only
@@ -59,8 +65,8 @@ MatchC09L(e, n) ==
             /\ (q.found /\ q.small) =>
                  \E j \in DOMAIN n.st.ret.spends :
                     /\ ExpectedRemovals(n.st)[j].coin = q.coin
-                    /\ q.puzzle = PuzzleOf(SpendItems(e.genrun.res)[j])
-                    /\ q.solution = SpendItems(e.genrun.res)[j].r.r.r.l
+                    /\ FromJ(q.puzzle) = PuzzleOf(SpendItems(e.genrun.res)[j])
+                    /\ FromJ(q.solution) = SpendItems(e.genrun.res)[j].r.r.r.l
 
 MatchGen(e, i) ==
   /\ CheckC(MatchC07(e), i, "C07")
@@ -75,7 +81,7 @@ MatchGen(e, i) ==
 VARIABLE l
 Init == l = 1 /\ MismatchInit
 Next == /\ l <= Len(Rec)
-        /\ MatchGen(Rec[l], l)
+        /\ MatchGen(NormE(Rec[l]), l)
         /\ l' = l + 1
 Accepted_ == Report(TLCGet("stats").diameter - 1)
 =============================================================================
